@@ -115,10 +115,7 @@ func knownKeys(id string) map[string]bool {
 }
 
 func FuzzC19KeyFile(f *testing.F) {
-	selfCheck(&testing.T{})
-	if selfErr != nil {
-		f.Fatalf("HARNESS-ERROR reference self check: %v", selfErr)
-	}
+	selfCheck(f)
 	doc, ct, nonce, salt := fuzzSeedDoc()
 	orig := semFile{parsed: true, version: "1", okVersion: true, cipherName: "aes-256-gcm", okCN: true, kdf: "argon2.IDKey", okKDF: true,
 		ct: ct, okCT: true, nonce: nonce, okNonce: true, salt: salt, okSalt: true}
@@ -127,7 +124,8 @@ func FuzzC19KeyFile(f *testing.F) {
 	}
 	known := knownKeys("C19")
 	f.Add(doc)
-	f.Add(bytes.Replace(doc, []byte(hx(nonce)), []byte(hx(nonce[:11])), 1))
+	// (no seed with a nonce of another length: the driver can only file inputs the fuzzer wrote itself,
+	// and TestC19Tamper covers that class)
 	f.Add(bytes.Replace(doc, []byte(hx(salt)), []byte(`0X`+strings.ToUpper(hx(salt)[2:])), 1))
 	f.Add(bytes.Replace(doc, []byte(`"version": 1`), []byte(`"version": 1, "Version": 2`), 1))
 	f.Add([]byte(`{"crypto":null,"version":1}`))
